@@ -374,8 +374,26 @@ def gen_document(rng, depth=3, doctype=True):
     bkids = gen_flow(rng, depth, set())
     if rng.random() < 0.06:
         bkids.insert(0, rng.choice([E("link", [("rel", "stylesheet"), ("href", "x")]), E("meta", [("itemprop", "x"), ("content", "y")])]))
+    r = rng.random()
+    if r < 0.08:
+        # a script or style element as the first child of body (the case where the body start tag may not be omitted)
+        nm = rng.choice(["script", "script", "style"])
+        bkids.insert(0, E(nm, rand_attrs(rng, nm, ["type"]) if rng.random() < 0.3 else [], [T(raw_text(rng, nm))] if rng.random() < 0.8 else []))
     body = E("body", rand_attrs(rng, "body") if rng.random() < 0.2 else [], bkids)
-    html = E("html", rand_attrs(rng, "html") if rng.random() < 0.3 else [], [gen_head(rng), body])
+    hkids = [gen_head(rng)]
+    if rng.random() < 0.05:
+        hkids.insert(0, C(rand_comment(rng)))
+    # white space and comments between </head> and <body> are children of the html element
+    if rng.random() < 0.2:
+        hkids.append(T(rng.choice([" ", "\n", "\n  ", "\t"])))
+    if rng.random() < 0.08:
+        hkids.append(C(rand_comment(rng)))
+        if rng.random() < 0.3:
+            hkids.append(T("\n"))
+    hkids.append(body)
+    if rng.random() < 0.05:
+        hkids.append(C(rand_comment(rng)))
+    html = E("html", rand_attrs(rng, "html") if rng.random() < 0.3 else [], hkids)
     kids = []
     if doctype:
         kids.append(Node("doctype", "html"))
